@@ -69,6 +69,9 @@ pub struct ServerState {
     pub(crate) finished_compilation: Arc<Notify>,
     pub(crate) pid_locked_files: PidLockedFiles,
     manifest_cache: DashMap<Url, Arc<PathBuf>>,
+    /// Serializes `get_or_init_sync_workspace`: handlers run concurrently, and a second handler must
+    /// wait for an initialization that is in progress instead of starting another one.
+    workspace_init_lock: tokio::sync::Mutex<()>,
     last_compilation_state: Arc<RwLock<LastCompilationState>>,
 }
 
@@ -93,6 +96,7 @@ impl Default for ServerState {
             finished_compilation: Arc::new(Notify::new()),
             pid_locked_files: PidLockedFiles::new(),
             manifest_cache: DashMap::new(),
+            workspace_init_lock: tokio::sync::Mutex::new(()),
             last_compilation_state: Arc::new(RwLock::new(LastCompilationState::Uninitialized)),
         };
         // Spawn a new thread dedicated to handling compilation tasks
@@ -571,6 +575,8 @@ impl ServerState {
         &self,
         uri: &Url,
     ) -> Result<Arc<SyncWorkspace>, LanguageServerError> {
+        let _init_guard = self.workspace_init_lock.lock().await;
+
         // First try to find the workspace root for this URI
         let workspace_root = self.find_workspace_root_for_uri(uri)?;
         let canonical_root = workspace_root.canonicalize().unwrap_or(workspace_root);
